@@ -1,4 +1,5 @@
 mod c08;
+mod c10;
 mod c11;
 mod c12;
 mod c17;
@@ -16,7 +17,7 @@ mod sut;
 use core::{Scenario, Tier};
 
 fn scenarios() -> Vec<&'static dyn Scenario> {
-    vec![&c20::C20Lib, &c11::C11Threads, &c08::C08Images, &c17::C17Corrupt, &c12::C12Deliveries, &c12::C12Subsets, &c12::C12XmodEnumeral, &c12::C12XmodName]
+    vec![&c20::C20Lib, &c11::C11Threads, &c08::C08Images, &c17::C17Corrupt, &c12::C12Deliveries, &c12::C12Subsets, &c12::C12XmodEnumeral, &c12::C12XmodName, &c10::C10Faults]
 }
 
 fn meta(prop: &str) -> (&'static str, Vec<&'static str>, serde_json::Value) {
@@ -65,6 +66,16 @@ fn meta(prop: &str) -> (&'static str, Vec<&'static str>, serde_json::Value) {
                 "when contextualize flags no line at all (the failing line is blank) only Display, the contextualize header and the structured line are compared",
             ],
             serde_json::json!({"components": components, "rule": "a case = (generated source of 1..3 modules with LF/CRLF and comments, corruption, delivery, backend): small sources (<= 4 assignments per module) are swept exhaustively over every strict byte position, larger ones sampled; every unit (header, assignment, END) is also hit at its first and last strict byte; plus sector zero-fills and truncations inside assignments; delivered as a literal or as a file whose bytes the seam corrupts in flight. distinct = distinct (source hash, corruption, delivery, backend); non-trivial = the compiler returned a syntax error and all five clauses were evaluated"}),
+        ),
+        "C10" => (
+            "exploration",
+            vec![
+                "the reference is the fault-free compilation of the same module set; which output items belong to which definition is learned by leave-one-out compilation (minus the items of its dependents), so the harness holds no copy of the compiler's naming rules",
+                "definitions whose attribution is empty (they produce no item of their own in the fault-free run) are not judged by the accounting oracle",
+                "a warning that names no definition at all (e.g. `Real types are currently unsupported!`) may account for any one otherwise unaccounted definition (bipartite matching), as the property allows a definition to be `the subject of a returned warning`",
+                "for input-level faults the locality oracle exempts the transitive dependents of the replaced definition; for buggify faults it exempts nothing but the faulted definition",
+            ],
+            serde_json::json!({"components": components, "rule": "a case = (generated set of 1..4 modules, backend/config, 1..3 definition-level faults): buggify at the generator stage or at the validator stage (cooperative fault points in the compiler, feature verif-hooks), replacement of a type assignment by REAL / VideotexString / inverted range / MACRO, or one module that does not lex. distinct = distinct (set, fault list, backend); non-trivial = the faulted compilation returned and the accounting and locality oracles were evaluated (or, for a lexer failure, the Err discriminant)"}),
         ),
         "C11" => (
             "exploration",
